@@ -1146,11 +1146,21 @@ func (c *c06Case) consistent() bool {
 
 var c06Vals = []string{"x1", "x2", "A b", "NA", "", "{k:v}", "a,b;c=d", "é", "[1]", "'q'"}
 
+// c06ManyKeys makes the next call of c06GenRecs draw its sequences from a pool of that many distinct
+// sequences (more than 100 classes in one run: the merged classes are delivered in batches of 100).
+var c06ManyKeys int
+
 func c06GenRecs(rng *rand.Rand, n int, na string, consistentMerged bool) []c06Rec {
 	nseq := 1 + rng.Intn(6)
+	minlen := 1
+	if c06ManyKeys > 0 {
+		nseq = c06ManyKeys
+		minlen = 8
+		c06ManyKeys = 0
+	}
 	seqs := make([][]byte, nseq)
 	for i := range seqs {
-		l := 1 + rng.Intn(6)
+		l := minlen + rng.Intn(6)
 		s := make([]byte, l)
 		for j := range s {
 			s[j] = "acgt"[rng.Intn(4)]
@@ -1312,6 +1322,11 @@ func (c06) Gen(rng *rand.Rand, tier string, emit func(string)) {
 			n = rng.Intn(4)
 		case 1:
 			n = 40 + rng.Intn(80)
+		}
+		if i%20 == 7 {
+			// more than 100 distinct keys in one run
+			c06ManyKeys = 101 + rng.Intn(160)
+			n = c06ManyKeys + 40 + rng.Intn(120)
 		}
 		consistent := rng.Intn(2) == 0
 		base := c06GenRecs(rng, n, na, consistent)
